@@ -12,7 +12,7 @@ use tauri_typegen::build::dependency_resolver::{
     DependencyType,
 };
 
-const NAMES: [&str; 5] = ["A", "B", "C", "D", "E"];
+const NAMES: [&str; 8] = ["A", "B", "C", "D", "E", "F", "G", "H"];
 
 /// adjacency as bit matrix: bit (u*n+v) set = u depends on v
 fn edges_of(n: usize, mask: u64) -> Vec<(usize, usize)> {
@@ -324,7 +324,7 @@ pub fn run(tier: Tier) -> CheckResult {
     // ---- topological_sort_types ----
     // (n, edge-count cap, deviation bound) slices, smallest first
     let slices: Vec<(usize, Option<u32>, Option<usize>)> = match tier {
-        Tier::Quick => vec![(1, None, None), (2, None, None), (3, None, None), (4, Some(7), Some(1))],
+        Tier::Quick => vec![(1, None, None), (2, None, None), (3, None, None), (4, Some(7), Some(1)), (5, Some(4), Some(0))],
         Tier::Thorough => vec![
             (1, None, None),
             (2, None, None),
@@ -403,6 +403,50 @@ pub fn run(tier: Tier) -> CheckResult {
         completed_slices.push(json!({"routine":"topological_sort_types","nodes":n,"max_edges":edge_cap,"deviation_bound":bound.map(|b| json!(b)).unwrap_or(json!("unbounded (full product)")),"graphs":masks.len(),"completed":done}));
         if !done {
             break;
+        }
+    }
+    // long dependency chains (depth is what small graphs cannot have): the path on 5..7 (8) nodes under
+    // every assignment of names to positions, requested as a whole and from each single node
+    {
+        fn perms(n: usize) -> Vec<Vec<usize>> {
+            if n == 1 {
+                return vec![vec![0]];
+            }
+            let mut out = vec![];
+            for p in perms(n - 1) {
+                for i in 0..n {
+                    let mut q = p.clone();
+                    q.insert(i, n - 1);
+                    out.push(q);
+                }
+            }
+            out
+        }
+        let max_chain = if tier == Tier::Quick { 7 } else { 8 };
+        for n in 5..=max_chain {
+            let ps = perms(n);
+            ps.par_iter().for_each(|p| {
+                if deadline.passed() {
+                    return;
+                }
+                // p[k] depends on p[k+1]
+                let mut mask = 0u64;
+                for k in 0..n - 1 {
+                    mask |= 1u64 << (p[k] * n + p[k + 1]);
+                }
+                let mut reqs: Vec<u64> = vec![(1u64 << n) - 1];
+                reqs.extend((0..n).map(|i| 1u64 << i));
+                for requested in reqs {
+                    let s = Schedule::default();
+                    let (r, _) = run_topo(n, mask, requested, &s);
+                    st.calls.fetch_add(1, Ordering::Relaxed);
+                    if let Some(msg) = check_topo(n, mask, requested, &r) {
+                        violations.lock().unwrap().push(viol_topo(n, mask, requested, &s, msg, &r));
+                    }
+                }
+                st.graphs.fetch_add(1, Ordering::Relaxed);
+            });
+            completed_slices.push(json!({"routine":"topological_sort_types","nodes":n,"shape":"path, every naming","graphs":ps.len(),"completed":!deadline.passed()}));
         }
     }
     samples.push(topo_case(3, 0b010_001_100, 0b001, &Schedule(vec![0, 1])));
